@@ -8,10 +8,10 @@ GROUP = dict(
     prop='C11',
     driver='driver.cpp',
     spec='spec.h',
-    aliases=[('babylon::SerializeTraits<int, void>', 'I32Traits'), ('babylon::SerializeTraits<signed char, void>', 'I8Traits'), ('babylon::SerializeTraits<bool, void>', 'BTraits'), ('babylon::SerializeTraits<long, void>', 'I64Traits'), ('google::protobuf::io::CodedInputStream', 'CodedInputStream'), (COS, 'CodedOutputStream'), ('babylon::SerializeTraits<babylon_vf::E64, void>', 'EnumTraits'), ('babylon::SerializeTraits<std::basic_string<char>, void>', 'StringTraits'), (STR, 'String'), ('babylon_vf::', '')],
+    aliases=[('babylon::SerializeTraits<short, void>', 'I16Traits'), ('babylon::SerializeTraits<unsigned char, void>', 'U8Traits'), ('babylon::SerializeTraits<unsigned short, void>', 'U16Traits'), ('babylon::SerializeTraits<unsigned int, void>', 'U32Traits'), ('babylon::SerializeTraits<unsigned long, void>', 'U64Traits'), ('babylon::SerializeTraits<int, void>', 'I32Traits'), ('babylon::SerializeTraits<signed char, void>', 'I8Traits'), ('babylon::SerializeTraits<bool, void>', 'BTraits'), ('babylon::SerializeTraits<long, void>', 'I64Traits'), ('google::protobuf::io::CodedInputStream', 'CodedInputStream'), (COS, 'CodedOutputStream'), ('babylon::SerializeTraits<babylon_vf::E64, void>', 'EnumTraits'), ('babylon::SerializeTraits<std::basic_string<char>, void>', 'StringTraits'), (STR, 'String'), ('babylon_vf::', '')],
     outside_methods={'google::protobuf::io::CodedInputStream': ['ReadVarint64', 'ReadVarint32', 'Skip', 'GetDirectBufferPointer'], COS: ['WriteVarint64', 'WriteVarint32', 'WriteString'], STR: ['clear', 'append', 'assign', 'size']},
     outside_funcs={'VarintSize64': 'vf_VarintSize64', 'VarintSize32': 'vf_VarintSize32', 'EnumSize': 'vf_EnumSize', 'Int32Size': 'vf_Int32Size', 'VarintSize32SignExtended': 'vf_VarintSize32SignExtended'},
-    roots=[H + 'varint_size', H + 'consume_unknown_field', ET + 'serialize', ET + 'deserialize', ET + 'calculate_serialized_size', ST + 'serialize', ST + 'deserialize', ST + 'calculate_serialized_size'] + ['babylon::SerializeTraits<%s, void>::%s' % (t, f) for t in ('int', 'signed char', 'bool', 'long') for f in ('serialize', 'deserialize', 'calculate_serialized_size')],
+    roots=[H + 'varint_size', H + 'consume_unknown_field', ET + 'serialize', ET + 'deserialize', ET + 'calculate_serialized_size', ST + 'serialize', ST + 'deserialize', ST + 'calculate_serialized_size'] + ['babylon::SerializeTraits<%s, void>::%s' % (t, f) for t in ('int', 'signed char', 'bool', 'long', 'short', 'unsigned char', 'unsigned short', 'unsigned int', 'unsigned long') for f in ('serialize', 'deserialize', 'calculate_serialized_size')],
     reviewed_compiler_conditionals=['src/babylon/serialization/traits.hpp:#if !__clang__', 'src/babylon/serialization/traits.hpp:#if !__clang__ && __cplusplus < 201703L'],  # a static constexpr member of BasicSerializeTraits only; not used by the functions under contract
     assumptions=['protobuf CodedInputStream::ReadVarint64/Skip are contract stubs: Skip(count) fails for count < 0 and otherwise consumes exactly count bytes or fails; ReadVarint64 consumes 1..10 bytes or fails',
                  'length prefixes below 2^31 (Skip takes an int; larger prefixes are truncated by the implicit conversion: recorded precondition, not claimed)'],
@@ -28,6 +28,21 @@ GROUP = dict(
         dict(id='C11.scalar.i64.size', enforce='I64Traits_calculate_serialized_size'),
         dict(id='C11.scalar.i64.serialize', enforce='I64Traits_serialize'),
         dict(id='C11.scalar.i64.deserialize', enforce='I64Traits_deserialize', replace=['CodedInputStream_ReadVarint64']),
+        dict(id='C11.scalar.i16.size', enforce='I16Traits_calculate_serialized_size'),
+        dict(id='C11.scalar.i16.serialize', enforce='I16Traits_serialize'),
+        dict(id='C11.scalar.i16.deserialize', enforce='I16Traits_deserialize', replace=['CodedInputStream_ReadVarint32']),
+        dict(id='C11.scalar.u8.size', enforce='U8Traits_calculate_serialized_size'),
+        dict(id='C11.scalar.u8.serialize', enforce='U8Traits_serialize'),
+        dict(id='C11.scalar.u8.deserialize', enforce='U8Traits_deserialize', replace=['CodedInputStream_ReadVarint32']),
+        dict(id='C11.scalar.u16.size', enforce='U16Traits_calculate_serialized_size'),
+        dict(id='C11.scalar.u16.serialize', enforce='U16Traits_serialize'),
+        dict(id='C11.scalar.u16.deserialize', enforce='U16Traits_deserialize', replace=['CodedInputStream_ReadVarint32']),
+        dict(id='C11.scalar.u32.size', enforce='U32Traits_calculate_serialized_size'),
+        dict(id='C11.scalar.u32.serialize', enforce='U32Traits_serialize'),
+        dict(id='C11.scalar.u32.deserialize', enforce='U32Traits_deserialize', replace=['CodedInputStream_ReadVarint32']),
+        dict(id='C11.scalar.u64.size', enforce='U64Traits_calculate_serialized_size'),
+        dict(id='C11.scalar.u64.serialize', enforce='U64Traits_serialize'),
+        dict(id='C11.scalar.u64.deserialize', enforce='U64Traits_deserialize', replace=['CodedInputStream_ReadVarint64']),
         dict(id='C11.varint_size', enforce='SerializationHelper_varint_size'),
         dict(id='C11.enum.size', enforce='EnumTraits_calculate_serialized_size'),
         dict(id='C11.enum.serialize', enforce='EnumTraits_serialize'),
